@@ -8,7 +8,7 @@ from typing import Any, Dict, Iterator, MutableMapping, Optional, Tuple, TypeVar
 from .hook import AbstractHook
 from .jsonutils import dict_to_smpp_message, json_encode, json_loads
 from .protocol import DeliverSm, SmppMessage, SubmitSm
-from .state import DLR_ERROR_OTHER_ERROR, SmppCommand, SmppCommandStatus
+from .state import COMMAND_RESPONSE_MAP, DLR_ERROR_OTHER_ERROR, SmppCommand, SmppCommandStatus
 from .utils import check_param
 
 
@@ -430,9 +430,17 @@ class SimpleCorrelator(AbstractCorrelator):
 
     async def get(self, response: SmppMessage) -> Optional[SmppMessage]:
         sequence_key: str = str(response.sequence_num)
-        item: Optional[Tuple[float, SmppMessage]] = self._store.pop(sequence_key, None)
+        item: Optional[Tuple[float, SmppMessage]] = self._store.get(sequence_key)
+        if (
+            item
+            and response.smpp_command != SmppCommand.GENERIC_NACK
+            and COMMAND_RESPONSE_MAP.get(item[1].smpp_command) != response.smpp_command
+        ):
+            # A response of another type does not answer this request, which stays outstanding
+            item = None
         smpp_message: Optional[SmppMessage] = None
         if item:
+            del self._store[sequence_key]
             smpp_message = item[1]
             if isinstance(smpp_message, SubmitSm):
                 if sequence_key in self._segment_store:
